@@ -94,7 +94,7 @@ class Site(object):
         return p
 
     def key(self):
-        return (self.body.path, self.bb)
+        return self.body.origin_key(self.bb)
 
     def __repr__(self):
         return "<Site %s bb%d %s>" % (self.body.path, self.bb, mirfmt.fmt_term(self.term)[:80])
@@ -122,6 +122,12 @@ class Body(object):
         for n in raw.get("names", []):
             if not n["place"]["p"]:
                 self.names.setdefault(n["place"]["l"], n["name"])
+
+    is_flat = False
+
+    def origin_key(self, bb):
+        """(body path, block) in the original program (differs from (path, bb) only for flat views)."""
+        return (self.path, bb)
 
     # ---- CFG (normal edges only; cleanup blocks are excluded) ----
     def succs(self, bb):
@@ -527,6 +533,8 @@ class Program(object):
         """Which closures can a generic `F: Fn*` parameter of a body be, and which closures are
         coerced to `dyn Fn` trait objects."""
         bound = collections.defaultdict(set)      # body path -> closure defs passed in as values
+        bound_by_name = collections.defaultdict(set)    # (body path, generic parameter name) -> closure defs
+        passes_named = collections.defaultdict(set)     # (caller, its parameter name) -> {(callee, callee parameter name)}
         dyn = set()
         passes_param = collections.defaultdict(set)   # caller -> callees receiving a param-typed fn
         fn_param_names = set()
@@ -550,19 +558,30 @@ class Program(object):
                 tgt = self.local_target(site)
                 if tgt is None:
                     continue
-                for a in site.term["args"]:
+                for k, a in enumerate(site.term["args"]):
                     pl = a.get("move") or a.get("copy")
                     if pl is None:
                         continue
                     tix = b.locals[pl["l"]] if not pl["p"] else None
                     if tix is None:
                         continue
+                    # the generic parameter (by name) that the callee's k-th parameter is typed with
+                    pname = None
+                    if k + 1 <= tgt.argc:
+                        pt = self.types[self.strip_refs(tgt.locals[k + 1])]
+                        if pt.get("k") == "param":
+                            pname = pt.get("name")
                     cd = self.closure_def_of_type(tix)
                     if cd:
                         bound[tgt.path].add(cd)
-                    elif (self.types[self.strip_refs(tix)].get("k") == "param"
-                          and self.types[self.strip_refs(tix)]["name"] in fn_param_names):
-                        passes_param[b.path].add(tgt.path)
+                        if pname:
+                            bound_by_name[(tgt.path, pname)].add(cd)
+                    elif self.types[self.strip_refs(tix)].get("k") == "param":
+                        if self.types[self.strip_refs(tix)]["name"] in fn_param_names:
+                            passes_param[b.path].add(tgt.path)
+                        # a generic value handed on to a generic parameter of the callee (it need not be called here)
+                        if pname:
+                            passes_named[(b.path, self.types[self.strip_refs(tix)]["name"])].add((tgt.path, pname))
         changed = True
         while changed:
             changed = False
@@ -572,8 +591,29 @@ class Program(object):
                     bound[c] |= bound[caller]
                     if len(bound[c]) != before:
                         changed = True
+            for (caller, m), tgts in passes_named.items():
+                src = set(bound_by_name.get((caller, m), set()))
+                cb = self.bodies.get(caller)
+                if cb is not None and cb.is_closure and cb.root:
+                    src |= bound_by_name.get((cb.root, m), set())
+                for key in tgts:
+                    before = len(bound_by_name[key])
+                    bound_by_name[key] |= src
+                    if len(bound_by_name[key]) != before:
+                        changed = True
         self._closure_bindings = bound
+        self._closure_bindings_named = bound_by_name
         self._dyn_bindings = dyn
+
+    def closure_bindings_of_param(self, body_path, pname):
+        """Closures the generic parameter `pname` of this body (or of the function enclosing this closure) may be."""
+        if self._closure_bindings is None:
+            self._compute_bindings()
+        out = set(self._closure_bindings_named.get((body_path, pname), set()))
+        b = self.bodies.get(body_path)
+        if b is not None and b.is_closure and b.root:
+            out |= self._closure_bindings_named.get((b.root, pname), set())
+        return out
 
     def closure_param_bindings(self, body_path):
         """Closures a generic `F: Fn*` value may be in this body. A closure body sees the generic
@@ -621,10 +661,13 @@ class Program(object):
                 if cd and cd in self.bodies:
                     out.append((self.bodies[cd], "direct"))
                 elif self_ix is not None and self.types[self.strip_refs(self_ix)].get("k") == "param":
-                    for cd in sorted(self.closure_param_bindings(site.body.path)):
+                    obp = site.body.origin_key(site.bb)[0]
+                    pname = self.types[self.strip_refs(self_ix)].get("name")
+                    cands = self.closure_bindings_of_param(obp, pname) or self.closure_param_bindings(obp)
+                    for cd in sorted(cands):
                         if cd in self.bodies:
                             out.append((self.bodies[cd], "param"))
-                    if not self.closure_param_bindings(site.body.path):
+                    if not cands:
                         self.unresolved.append(site)
                 else:
                     self.unresolved.append(site)
